@@ -23,7 +23,7 @@ import itertools
 import re
 from fractions import Fraction
 
-from ..core import Sub, fail, enc, lit, close, isnum
+from ..core import Sub, fail, enc, lit, close, isnum, scale
 
 OPS = ('+', '-', '*', '/')
 BASE = datetime.datetime(1899, 12, 30)
@@ -892,5 +892,49 @@ def flatten_json(v, n, nested):
     return out
 
 
+
+class ArrayScale(Sub):
+    name = 'c06.scale'
+    rule = ('size ladder of the array length n: [1..n] op scalar, scalar op [1..n], [1..n] op [n..1] for + - * /, as host lists '
+            'and (n <= 257) literals: element-wise results of length n; lengths n against n+1 give #VALUE!; a text of n '
+            'characters joins verbatim under &; non-trivial = all')
+    min_cases = 40
+    min_nontrivial = 40
+
+    def cases(self, tier, unit):
+        for n in scale(tier):
+            yield [n]
+
+    def check(self, env, case):
+        n = case[0]
+        env.nt()
+        xs = list(range(1, n + 1))
+        ys = list(range(n, 0, -1))
+        txt = ''.join('xyz'[i % 3] for i in range(n))
+        probes = [('xa+1', [x + 1 for x in xs]), ('2*xa', [2 * x for x in xs]), ('xa-xb', [x - y for x, y in zip(xs, ys)]),
+                  ('xa*xb', [x * y for x, y in zip(xs, ys)]), ('xa/xa', [1.0] * n), ('10-xa', [10 - x for x in xs]),
+                  ('xt&xt', txt + txt), ('xt&1', txt + '1'), ('SUM(xa*2)', n * (n + 1))]
+        if n >= 2:      # a one-item array against two items is not demanded (it may broadcast like a scalar)
+            probes += [('xa+xc', '#VALUE!'), ('xc*xa', '#VALUE!')]
+        if n <= 257:
+            L = '{' + ','.join(str(x) for x in xs) + '}'
+            probes += [('%s+1' % L, [x + 1 for x in xs]), ('%s*%s' % (L, L), [x * x for x in xs])]
+        out = []
+        vars_ = {'xa': xs, 'xb': ys, 'xc': xs + [0], 'xt': txt}
+        for f, want in probes:
+            o = env.evo(f, dict(vars_))
+            ok = (o == ['e', want]) if isinstance(want, str) and want.startswith('#') else (
+                o[0] == 'v' and o[1] == want and (not isinstance(want, list) or len(o[1]) == n))
+            if not ok:
+                out.append(fail('%s with xa = [1..%d], xb = [%d..1], xc = %d items, xt = %d characters gives %s, expected %s' % (
+                    f if len(f) < 80 else f[:40] + ' ... ' + f[-20:], n, n, n + 1, n, repr(o)[:120], repr(want)[:120]),
+                    repr(want)[:300], repr(o)[:300]))
+                if len(out) >= 3:
+                    break
+        if vars_['xa'] != xs or vars_['xb'] != ys:
+            out.append(fail('a host list of %d items was modified by an array operation' % n))
+        return out
+
+
 SUBS = [ScalarPairs(), ArrayScalar(), ArrayArray(), Mismatch(), Nested(), LiteralArrays(), Concat(), EarlyDates(),
-        ExactIntegers(), ArrayReuse()]
+        ExactIntegers(), ArrayReuse(), ArrayScale()]
